@@ -152,7 +152,14 @@ var _ metadata.Store = (*c40Rec)(nil)
 
 var c40Topics = []string{"orders", "events", "a:b"}
 
-func c40NewStore(t testing.TB) *metadata.InMemoryStore {
+// c40Worlds: the cluster states the tools are run against. base = a populated, consistent store;
+// stale-config = stored topic configs whose partition count / replication factor disagree with the live
+// topic (what CreatePartitions after AlterConfigs leaves on the etcd store); grown = topics grown by
+// CreatePartitions after their config and offsets were stored; bare = topics only (no offsets, groups,
+// commits or configs).
+var c40Worlds = []string{"base", "stale-config", "grown", "bare"}
+
+func c40NewStore(t testing.TB, world string) *metadata.InMemoryStore {
 	ctx := context.Background()
 	cn, cid := "verif-cluster", "verif-id"
 	st := metadata.NewInMemoryStore(metadata.ClusterMetadata{
@@ -171,6 +178,9 @@ func c40NewStore(t testing.TB) *metadata.InMemoryStore {
 			t.Fatalf("HARNESS-ERROR populate store: %v", err)
 		}
 	}
+	if world == "bare" {
+		return st
+	}
 	must(st.UpdateOffsets(ctx, "orders", 0, 41))
 	must(st.UpdateOffsets(ctx, "orders", 1, 6))
 	must(st.UpdateOffsets(ctx, "a:b", 0, 2))
@@ -187,6 +197,17 @@ func c40NewStore(t testing.TB) *metadata.InMemoryStore {
 	must(st.PutConsumerGroup(ctx, &metadatapb.ConsumerGroup{GroupId: "g-2", State: "empty", ProtocolType: "consumer"}))
 	must(st.PutConsumerGroup(ctx, &metadatapb.ConsumerGroup{GroupId: "g:3", State: "dead"}))
 	must(st.UpdateTopicConfig(ctx, &metadatapb.TopicConfig{Name: "orders", Partitions: 2, ReplicationFactor: 2, RetentionMs: 1000, RetentionBytes: -1, SegmentBytes: 4096, CreatedAt: "2026-01-01T00:00:00Z", Config: map[string]string{"cleanup.policy": "delete"}}))
+	switch world {
+	case "stale-config":
+		must(st.UpdateTopicConfig(ctx, &metadatapb.TopicConfig{Name: "orders", Partitions: 5, ReplicationFactor: 3, RetentionMs: 1000, RetentionBytes: -1, SegmentBytes: 4096, CreatedAt: "2026-01-01T00:00:00Z", Config: map[string]string{"cleanup.policy": "delete"}}))
+		must(st.UpdateTopicConfig(ctx, &metadatapb.TopicConfig{Name: "events", Partitions: 3, ReplicationFactor: 1, RetentionMs: -1, RetentionBytes: 10}))
+		must(st.UpdateTopicConfig(ctx, &metadatapb.TopicConfig{Name: "a:b", Partitions: 1}))
+	case "grown":
+		must(st.UpdateTopicConfig(ctx, &metadatapb.TopicConfig{Name: "events", RetentionMs: 5}))
+		must(st.CreatePartitions(ctx, "events", 3))
+		must(st.CreatePartitions(ctx, "orders", 4))
+		must(st.UpdateOffsets(ctx, "orders", 3, 7))
+	}
 	return st
 }
 
@@ -316,6 +337,7 @@ type c40Case struct {
 	NilList bool            `json:"nil_list,omitempty"`
 	Metrics string          `json:"metrics"`
 	FailAt  int             `json:"fail_read_at"`
+	World   string          `json:"world,omitempty"` // "" = base
 }
 
 // c40SchemaArgs builds the argument sets of one tool from its advertised input schema.
@@ -393,6 +415,7 @@ func c40SchemaArgs(schema any) (argsets []json.RawMessage, props []string) {
 type c40Env struct {
 	t      *testing.T
 	rep    *vh.Report
+	world  string
 	inner  *metadata.InMemoryStore
 	rec    *c40Rec
 	api0   string
@@ -407,7 +430,7 @@ func (e *c40Env) rebuild() {
 		c()
 	}
 	e.closer = nil
-	e.inner = c40NewStore(e.t)
+	e.inner = c40NewStore(e.t, e.world)
 	e.rec = &c40Rec{inner: e.inner}
 	e.api0, e.deep0 = c40DumpAPI(e.inner), c40DumpDeep(e.inner)
 	e.sess = map[string]*mcp.ClientSession{}
@@ -444,6 +467,7 @@ func c40ErrClass(err error) string {
 
 // run executes one case and checks the oracle.
 func (e *c40Env) run(c c40Case) {
+	c.World = e.world
 	e.rec.reset(c.FailAt)
 	var outcome string
 	var panicked any
@@ -490,7 +514,7 @@ func (e *c40Env) run(c c40Case) {
 			seq = append(seq, n)
 		}
 	}
-	sig := fmt.Sprintf("%s|%s|%s|m=%s|%s", c.Mode, c.Tool, outcome, c.Metrics, strings.Join(seq, ">"))
+	sig := fmt.Sprintf("%s|%s|%s|%s|m=%s|%s", e.world, c.Mode, c.Tool, outcome, c.Metrics, strings.Join(seq, ">"))
 	nontrivial := len(names) > 0
 	e.rep.Outcome(sig, nontrivial)
 	if nontrivial && strings.HasPrefix(outcome, "ok:") && c.Args != nil && len(c.Args) > 2 && e.rep.WantSample() {
@@ -583,25 +607,43 @@ func TestVerifC40(t *testing.T) {
 	defer rep.Finish()
 	rep.Rule = "cases = (a) every tool advertised by the real NewServer (tools/list over the SDK's in-memory transport) x every argument object built from its input schema (per property: absent, null, wrong type, and the name / list alphabets; plus no arguments, {}, null, unknown property, non-object) x metrics provider {nil, ok, error, nil snapshot} (tools without properties) x injected read failure at store read #{none,1,2}; (b) each of the 8 handler constructors called directly with typed inputs (nil and empty slices, the same alphabets, nil request). signature = mode | tool | result class (ok + list lengths / error class) | metrics variant | sequence of store methods reached; non-trivial = the call reached the store"
 	rep.Assumptions = []string{
-		"the cluster state is the metadata.Store the server was given (recording wrapper over a populated metadata.InMemoryStore); the etcd-backed store is not exercised",
+		"the cluster state is the metadata.Store the server was given (recording wrapper over a metadata.InMemoryStore in each of the worlds base / stale-config / grown / bare); the etcd-backed store is not exercised",
 		"mutating methods = UpdateOffsets, CommitConsumerOffset, PutConsumerGroup, DeleteConsumerGroup, UpdateTopicConfig, CreatePartitions, CreateTopic, DeleteTopic",
 	}
-	e := &c40Env{t: t, rep: rep}
+	var rc c40Case
+	if ok, err := vh.LoadReplay(&rc); ok {
+		if err != nil {
+			t.Fatalf("HARNESS-ERROR replay: %v", err)
+		}
+		if rc.World == "" {
+			rc.World = "base"
+		}
+		e := &c40Env{t: t, rep: rep, world: rc.World}
+		e.rebuild()
+		e.run(rc)
+		for _, c := range e.closer {
+			c()
+		}
+		return
+	}
+	rep.SetInfo("worlds", c40Worlds)
+	si, sn := vh.Shard()
+	for wi, world := range c40Worlds {
+		if wi%sn != si {
+			continue
+		}
+		c40RunWorld(t, rep, world)
+	}
+}
+
+func c40RunWorld(t *testing.T, rep *vh.Report, world string) {
+	e := &c40Env{t: t, rep: rep, world: world}
 	e.rebuild()
 	defer func() {
 		for _, c := range e.closer {
 			c()
 		}
 	}()
-
-	var rc c40Case
-	if ok, err := vh.LoadReplay(&rc); ok {
-		if err != nil {
-			t.Fatalf("HARNESS-ERROR replay: %v", err)
-		}
-		e.run(rc)
-		return
-	}
 
 	// (a) through the real server
 	lt, err := e.sess["nil"].ListTools(context.Background(), nil)
